@@ -491,3 +491,142 @@ def check_undefined_names(ck, rule, mods):
         if not und:
             ck.ok(rule, mod, None, mod.rel, 'every global name read in the module is bound in it or is a builtin (symtable)')
     return n
+
+
+# ---------------------------------------------------------------------------
+# comparison with None through == / != on a sequence-valued parameter
+
+def _used_as_sequence(fn, name):
+    """The function indexes, slices, measures or sums `name` (so callers pass a list OR an array)."""
+    for n in walk_local(fn):
+        if isinstance(n, ast.Subscript) and isinstance(n.value, ast.Name) and n.value.id == name:
+            return n
+        if isinstance(n, ast.Call) and isinstance(n.func, ast.Name) and n.func.id in ('len', 'sum', 'sorted', 'list', 'tuple') \
+                and n.args and isinstance(n.args[0], ast.Name) and n.args[0].id == name:
+            return n
+        if isinstance(n, ast.Call) and (call_name(n) or '').startswith('np.') and any(
+                isinstance(a, ast.Name) and a.id == name for a in n.args):
+            return n
+        if isinstance(n, (ast.For, ast.comprehension)) and isinstance(n.iter, ast.Name) and n.iter.id == name:
+            return n
+    return None
+
+
+def none_equality_on_sequences(ck, rule, mod, quals):
+    """`x == None` / `x != None` is an ELEMENTWISE comparison when x is an ndarray, and its result has
+    no truth value: an argument test written that way raises ValueError for the array form of a
+    sequence argument instead of deciding "was it given".  For every such comparison whose operand is
+    a parameter: VIOLATION when the parameter is used as a sequence (indexed, sliced, len/sum, iterated)
+    in the same function or in a package function it is handed to (one level); discharged otherwise
+    (a namespace, a string, a flag)."""
+    n_seen = 0
+    for q in quals:
+        try:
+            fn = mod.func(q)
+        except Exception:
+            ck.missing(rule, 'function %s' % q)
+            continue
+        ck.analysed(mod, fn)
+        ps = set(params(fn))
+        for n in walk_local(fn):
+            if not (isinstance(n, ast.Compare) and len(n.ops) == 1 and isinstance(n.ops[0], (ast.Eq, ast.NotEq))):
+                continue
+            l, r = n.left, n.comparators[0]
+            other = r if (isinstance(l, ast.Constant) and l.value is None) else (l if isinstance(r, ast.Constant) and r.value is None else None)
+            if other is None or not isinstance(other, ast.Name) or other.id not in ps:
+                continue
+            n_seen += 1
+            name = other.id
+            site = _used_as_sequence(fn, name)
+            where = q
+            if site is None:
+                # one level: handed on to a function of the same module
+                for c in walk_local(fn):
+                    if not isinstance(c, ast.Call):
+                        continue
+                    base = (call_name(c) or '').split('.')[-1]
+                    callee = mod.functions.get(base)
+                    if callee is None:
+                        continue
+                    cps = params(callee)
+                    bound = None
+                    for i, a in enumerate(c.args):
+                        if isinstance(a, ast.Name) and a.id == name and i < len(cps):
+                            bound = cps[i]
+                    for k in c.keywords:
+                        if isinstance(k.value, ast.Name) and k.value.id == name and k.arg in cps:
+                            bound = k.arg
+                    if bound and _used_as_sequence(callee, bound) is not None:
+                        site = _used_as_sequence(callee, bound)
+                        where = base
+                        break
+            if site is not None:
+                ck.bad(rule, mod, n, q, 'argument test `%s` on the sequence parameter %s' % (u(n), name),
+                       '`%s` compares elementwise when %s is an ndarray (it is used as a sequence: `%s` in %s): the test '
+                       'raises "truth value of an array is ambiguous" instead of deciding whether the argument was given; '
+                       'use `is None` / `is not None`' % (u(n), name, u(site)[:60], where))
+            else:
+                ck.ok(rule, mod, n, u(n), '%s is not used as a sequence (namespace / flag / string)' % name)
+    return n_seen
+
+
+# ---------------------------------------------------------------------------
+# k distinct random picks out of n
+
+_WITH_REPLACEMENT = ('integers', 'randint', 'random_integers', 'choice', 'randrange')
+
+
+def distinct_random_picks(ck, rule, mod, qual, why=''):
+    """Where a function draws k DISTINCT random indices out of n, the draw has to be without replacement
+    (`choice(n, k, replace=False)`, `permutation(n)[:k]`, `sample(range(n), k)`).  Drawing k values WITH
+    replacement inside a loop that repeats until they happen to be pairwise distinct succeeds with
+    probability ~exp(-k^2 / 2n) per trip: for k of the order of n/5 the call never returns.  Decided on
+    the loop: a `while` whose test counts the distinct elements of V (np.unique / set) and whose body
+    rebinds V from a with-replacement draw."""
+    try:
+        fn = mod.func(qual)
+    except Exception:
+        ck.missing(rule, 'function %s' % qual)
+        return 0
+    ck.analysed(mod, fn)
+    found = 0
+
+    def draw_kind(e):
+        for c in ast.walk(e):
+            if isinstance(c, ast.Call) and isinstance(c.func, ast.Attribute):
+                a = c.func.attr
+                if a in ('permutation', 'sample', 'shuffle'):
+                    return 'without', c
+                if a == 'choice':
+                    rp = kwarg(c, 'replace')
+                    if rp is None and len(c.args) >= 3:
+                        rp = c.args[2]
+                    if isinstance(rp, ast.Constant) and rp.value is False:
+                        return 'without', c
+                    return 'with', c
+                if a in _WITH_REPLACEMENT:
+                    return 'with', c
+        return None, None
+    for w in walk_local(fn):
+        if not isinstance(w, ast.While):
+            continue
+        counted = set()
+        for c in ast.walk(w.test):
+            if isinstance(c, ast.Call) and (call_name(c) in ('np.unique', 'set', 'numpy.unique')) and c.args and isinstance(c.args[0], ast.Name):
+                counted.add(c.args[0].id)
+        for s in w.body:
+            if isinstance(s, ast.Assign) and len(s.targets) == 1 and isinstance(s.targets[0], ast.Name) and s.targets[0].id in counted:
+                kind, call = draw_kind(s.value)
+                if kind == 'with':
+                    found += 1
+                    ck.bad(rule, mod, w, qual, 'rejection loop around a with-replacement draw of `%s`' % s.targets[0].id,
+                           'the loop `while %s` redraws all of `%s` with `%s` until the values are pairwise distinct; a trip '
+                           'succeeds with probability about exp(-k^2/2n), so the call does not return for ordinary k (k = n/5): '
+                           'draw without replacement. %s' % (u(w.test)[:80], s.targets[0].id, u(call)[:80], why))
+    for s in walk_local(fn):
+        if isinstance(s, ast.Assign):
+            kind, call = draw_kind(s.value)
+            if kind == 'without':
+                found += 1
+                ck.ok(rule, mod, s, u(s)[:120], 'distinct picks drawn without replacement')
+    return found
